@@ -8,7 +8,7 @@ def run(ctx):
     exe = ctx.cc("h_map.c", "asan")
     # (1) design check of the dictionary + notifier part of the specification, per implementation profile
     for impl in maps.IMPLS:
-        cfg = ctx.cfg("MapMC_notif_%s.cfg" % impl, maps.consts(impl, [1, 2, 3] if not q else [1, 2], 2, 0, [7] if q else [5, 7], True, (0, 1)) +
+        cfg = ctx.cfg("MapMC_notif_%s.cfg" % impl, maps.consts(impl, [1, 2, 3] if not q else [1, 2], 2, 0, [7], True, (0, 1)) +
                       "SPECIFICATION Spec\nINVARIANT TypeOK\nINVARIANT NotifScope\nINVARIANT UdInjective\nINVARIANT FreeOnlyGlobal\nCHECK_DEADLOCK FALSE\n")
         r = ctx.model_check("Map.tla", cfg)
         ctx.check_vacuity(r, ["Put", "Get", "Rm", "Count", "Destroy", "ANotifyAdd", "ANotifyDel", "ANotifyDelAny"])
